@@ -1245,6 +1245,10 @@ fn c15_owns(d: &Disc, out: &StepOut, t: &Trace) -> bool {
     if out.ctx == "NICK" && not_panic(d) {
         return true;
     }
+    // the nickname given up is recorded for WHOWAS (also once somebody holds it again)
+    if out.ctx == "WHOWAS" && !t.renamed_conns.is_empty() && matches!(d, Disc::Missing { line, .. } | Disc::Extra { line, .. } if line[0] == "S" && ["314", "312", "406", "369"].contains(&line[1].as_str())) {
+        return true;
+    }
     // after an accepted rename: whatever was attached to the old nick must keep working under
     // the new one - WALLOPS reception, admission by a pending invitation, away replies, ranks.
     // Owned only when the discrepancy concerns a renamed user's connection or names a nick
